@@ -11,8 +11,7 @@
 (*             of that local time; a local time has 0, 1 or 2 candidates;   *)
 (*             0 exactly inside the gap of a transition that moves the      *)
 (*             clock forward, 2 exactly inside the overlap of one that      *)
-(*             moves it back; near transitions the candidates are all the   *)
-(*             instants of a dense set that map to the local time;          *)
+(*             moves it back;                                               *)
 (*  RoundTrip- a text with the offset in force written out (%z) denotes its *)
 (*             instant again, for ALL instants incl. both occurrences of an *)
 (*             overlap, whose texts differ only in the offset; a text       *)
@@ -20,15 +19,19 @@
 (*  Routes   - every setting of the case space selects its zone, and the    *)
 (*             other routes name different zones;                           *)
 (*  Examples - the worked examples of the reference.                        *)
-(* One state per segment (k); the configuration's Grid constants set how    *)
-(* dense the instants are.                                                  *)
+(* One state per (segment, share of its instants); the states are visited   *)
+(* along a binary tree so that TLC's workers share them.  The constants set *)
+(* how dense the instants are.                                              *)
 (***************************************************************************)
 EXTENDS ZonesCases
 CONSTANTS DayStep,      \* Lookup / Inverse on one instant every DayStep days (at an hour that rotates with the day) ...
-          NearStep      \* ... and on every NearStep seconds within 26 hours of every transition
-VARIABLE k
-Init == k \in 1..NSegs
-Next == UNCHANGED k
+          NearStep,     \* ... and on every NearStep seconds within 26 hours of every transition
+          Parts         \* each segment's instants are dealt out to this many states
+VARIABLE b
+Init == b = 0
+Next == \E j \in 1..2 : 2 * b + j < NSegs * Parts /\ b' = 2 * b + j
+k == (b % NSegs) + 1
+part == b \div NSegs
 sg == Segs[k]
 
 \* ---- Table ---------------------------------------------------------------------------------------------
@@ -45,26 +48,34 @@ Table ==
 
 \* ---- the instants the laws run over ------------------------------------------------------------------------
 Span == sg.hi[1] - sg.lo[1]
-Daily == {<<sg.lo[1] + d, ((sg.lo[1] + d) % 24) * 3600 + ((sg.lo[1] + d) % 4) * 900>> : d \in {j * DayStep : j \in 0..((Span - 1) \div DayStep)}}
+Daily == {<<sg.lo[1] + d, ((sg.lo[1] + d) % 24) * 3600 + ((sg.lo[1] + d) % 4) * 900>>
+          : d \in {j * DayStep : j \in {i \in 0..((Span - 1) \div DayStep) : i % Parts = part}}}
 Near(i) == {Plus(sg.tr[i].at, e) : e \in {j * NearStep : j \in (-(93600 \div NearStep))..(93600 \div NearStep)} \cup {-1, 1}}
-NearAll == UNION {Near(i) : i \in 1..Len(sg.tr)}
+MyTr == {i \in 1..Len(sg.tr) : i % Parts = part}
+NearAll == UNION {Near(i) : i \in MyTr}
 Instants == {t \in Daily \cup NearAll : InSeg(sg, t)}
 \* far enough inside the segment for every candidate of t, read as a local time, to lie inside it
 SafeL(t) == InSeg(sg, Plus(t, -172800)) /\ InSeg(sg, Plus(t, 172800))
 \* a sparser set for the laws that build texts: three hours around every transition, and one instant a month
-Sparse == {t \in UNION {{Plus(sg.tr[i].at, e) : e \in {j * 1800 : j \in -6..6} \cup {-1, 1}} : i \in 1..Len(sg.tr)}
-                 \cup {<<sg.lo[1] + 3 + 30 * j, (j % 24) * 3600 + 1799>> : j \in 0..((Span - 6) \div 30)} : Safe(sg, t)}
-Edges == {t \in UNION {{Plus(sg.tr[i].at, e) : e \in {-1, 0}} : i \in 1..Len(sg.tr)} \cup {Plus(sg.lo, 200000)} : Safe(sg, t)}
+Sparse == {t \in UNION {{Plus(sg.tr[i].at, e) : e \in {j * 1800 : j \in -6..6} \cup {-1, 1}} : i \in MyTr}
+                 \cup {<<sg.lo[1] + 3 + 30 * j, (j % 24) * 3600 + 1799>> : j \in {i \in 0..((Span - 6) \div 30) : i % Parts = part}} : Safe(sg, t)}
+Edges == {t \in UNION {{Plus(sg.tr[i].at, e) : e \in {-1, 0}} : i \in MyTr} \cup {Plus(sg.lo, 200000)} : Safe(sg, t)}
 
 \* ---- Lookup ----------------------------------------------------------------------------------------------
 Lookup ==
   /\ \A t \in Instants : StateIn(sg, t) = StateDef(sg, t)
-  /\ \A i \in 1..Len(sg.tr) : StateIn(sg, sg.tr[i].at) = sg.tr[i] /\ StateIn(sg, Plus(sg.tr[i].at, -1)) = Before(sg, i)
+  /\ \A i \in MyTr : StateIn(sg, sg.tr[i].at) = sg.tr[i] /\ StateIn(sg, Plus(sg.tr[i].at, -1)) = Before(sg, i)
   /\ StateIn(sg, sg.lo) = sg.init
 
 \* ---- Inverse ---------------------------------------------------------------------------------------------
-InGap(L) == \E i \in 1..Len(sg.tr) : GapOf(sg, i, L)
-InOverlap(L) == \E i \in 1..Len(sg.tr) : OverlapOf(sg, i, L)
+InGapDef(L) == \E i \in 1..Len(sg.tr) : GapOf(sg, i, L)
+InOverlapDef(L) == \E i \in 1..Len(sg.tr) : OverlapOf(sg, i, L)
+\* the same, looking only at the one transition that can matter: transitions are more than two days apart (Table) and a
+\* gap or overlap lies within 14 hours of its transition, so it is the last transition not after L + 14 h (NearLaw
+\* compares the two forms on the sparse instants and on every gap point)
+NearIdx(L) == CountLeq(sg.tr, Plus(L, 50400), 0, Len(sg.tr))
+InGap(L) == NearIdx(L) > 0 /\ GapOf(sg, NearIdx(L), L)
+InOverlap(L) == NearIdx(L) > 0 /\ OverlapOf(sg, NearIdx(L), L)
 LocalLaw(L) ==
   LET C == Candidates(sg, L) IN
   /\ Cardinality(C) \in 0..2
@@ -77,17 +88,18 @@ InstantLaw(t) ==
   /\ L[2] \in 0..86399
   /\ (Safe(sg, t) => t \in Candidates(sg, L) /\ ~InGap(L))
 \* local times taken as they are (they include times inside gaps), and the local times of the instants
+NearLaw(L) == InGap(L) = InGapDef(L) /\ InOverlap(L) = InOverlapDef(L)
 Inverse ==
+  /\ \A t \in Sparse : NearLaw(t) /\ NearLaw(Local(sg, t))
+  /\ \A i \in MyTr : IsGap(sg, i) => \A L \in GapPoints(sg, i) : NearLaw(L)
   /\ \A t \in Instants : InstantLaw(t) /\ (SafeL(t) => LocalLaw(t) /\ LocalLaw(Local(sg, t)))
-  \* brute force near every transition: whatever maps to L is a candidate of L
-  /\ \A i \in 1..Len(sg.tr) : \A t \in Near(i) : Safe(sg, t) => {u \in Near(i) : Local(sg, u) = Local(sg, t)} \subseteq Candidates(sg, Local(sg, t))
   \* the gap / overlap of a transition is as long as the clock moves
-  /\ \A i \in 1..Len(sg.tr) :
-       LET a == sg.tr[i].at  b == Before(sg, i).off  n == sg.tr[i].off IN
-       /\ (n > b => GapOf(sg, i, Plus(a, b)) /\ GapOf(sg, i, Plus(a, n - 1)) /\ ~GapOf(sg, i, Plus(a, n)) /\ ~GapOf(sg, i, Plus(a, b - 1)))
-       /\ (n < b => OverlapOf(sg, i, Plus(a, n)) /\ OverlapOf(sg, i, Plus(a, b - 1)) /\ ~OverlapOf(sg, i, Plus(a, b))
-                    /\ Candidates(sg, Plus(a, n)) = {Plus(a, n - b), a})
-       /\ (n > b /\ Safe(sg, a) => \A L \in GapPoints(sg, i) : GapOf(sg, i, L) /\ Candidates(sg, L) = {})
+  /\ \A i \in MyTr :
+       LET a == sg.tr[i].at  o == Before(sg, i).off  n == sg.tr[i].off IN
+       /\ (n > o => GapOf(sg, i, Plus(a, o)) /\ GapOf(sg, i, Plus(a, n - 1)) /\ ~GapOf(sg, i, Plus(a, n)) /\ ~GapOf(sg, i, Plus(a, o - 1)))
+       /\ (n < o => OverlapOf(sg, i, Plus(a, n)) /\ OverlapOf(sg, i, Plus(a, o - 1)) /\ ~OverlapOf(sg, i, Plus(a, o))
+                    /\ Candidates(sg, Plus(a, n)) = {Plus(a, n - o), a})
+       /\ (n > o /\ Safe(sg, a) => \A L \in GapPoints(sg, i) : GapOf(sg, i, L) /\ Candidates(sg, L) = {})
 
 \* ---- RoundTrip -------------------------------------------------------------------------------------------
 \* the instant a text with %z denotes: the shown local fields, less the shown offset
